@@ -15,6 +15,7 @@ import (
 	"crypto/tls"
 	"crypto/x509"
 	"crypto/x509/pkix"
+	"database/sql"
 	"encoding/pem"
 	"fmt"
 	"io"
@@ -229,6 +230,18 @@ type vWorld struct {
 	dir     string
 	adminCA *vCA // operator-configured client CA (not keymaster)
 	opts    vWorldOpts
+	// set by vShimPrimary (sqlshim file): the plain handle of the primary and the outage switch
+	rawPrimary *sql.DB
+	outageHook func(on bool)
+}
+
+// vRawPrimary: the harness's own handle on the primary store (never subject to
+// simulated outages).
+func (w *vWorld) vRawPrimary() *sql.DB {
+	if w.rawPrimary != nil {
+		return w.rawPrimary
+	}
+	return w.state.db
 }
 
 type vCA struct {
@@ -402,6 +415,12 @@ func vNewWorld(opts vWorldOpts) *vWorld {
 }
 
 func (w *vWorld) Close() {
+	if w.outageHook != nil {
+		w.outageHook(false) // release parked reads
+	}
+	if w.rawPrimary != nil {
+		w.rawPrimary.Close()
+	}
 	if w.state.db != nil {
 		w.state.db.Close()
 	}
